@@ -100,6 +100,16 @@ func runC33(c *core.Ctx) {
 		eng.MustPassCall(c, "C33.consume-on-every-path", m, "Delete("+get.Shape.Canon()+")",
 			func(ci ssa.CallInstruction) bool { return ci == delCall }, ir.SuccessSinks(m), "success return after approval",
 			&eng.Opt{Cuts: notApproved, Fact: "CheckConsensusSigns returned true"})
+		// when the delete sits in a helper, the helper must perform it on every successful path too
+		for i := 1; i < len(match.Chain); i++ {
+			callee := match.Chain[i].Parent()
+			next := match.Chain[i]
+			if callee == nil || callee == m {
+				continue
+			}
+			eng.MustPassCall(c, "C33.consume-on-every-path", callee, "Delete("+get.Shape.Canon()+") (in helper)",
+				func(ci ssa.CallInstruction) bool { return ci == next }, ir.SuccessSinks(callee), "successful return of the helper", nil)
+		}
 	}
 	// completeness: every registered handler that calls CheckConsensusSigns and reads a request record
 	for _, h := range Handlers(c) {
